@@ -15,7 +15,7 @@ from ..ref import script as S, hashes as H, opnames as O
 from .. import libx
 
 from bitcoin.core import (ValidationError, CTransaction, CMutableTransaction, CMutableTxIn, CMutableOutPoint, CMutableTxOut,
-                          CTxWitness, CTxInWitness)
+                          CTxWitness, CTxInWitness, CTxIn, CTxOut, COutPoint)
 from bitcoin.core.script import CScript, CScriptWitness, OP_1
 from bitcoin.core.scripteval import EvalScript, VerifyScript, EvalScriptError
 
@@ -91,9 +91,32 @@ def scripts_of(case):
     return ssig, spk
 
 
+def check_usertx(case):
+    """transactions of a caller's own subclass whose == / hash() say nothing about the content: verified one after the other
+    (fewest inputs first), each at its last input, with a script that reaches the signature hash"""
+    pk = bytes.fromhex('0279be667ef9dcbbac55a06295ce870b07029bfcdb2dce28d959f2815b16f81798')
+    sig = bytes.fromhex('3006020101020101') + b'\x01'
+    n = 0
+    for nin in case['nins']:
+        vin = [CTxIn(COutPoint(bytes([i + 1]) * 32, i), CScript([OP_1]), 5) for i in range(nin)]
+        tx = libx.AnyEqTx(vin, [CTxOut(1, CScript([OP_1]))], 0, 2)
+        for spk in (CScript(bytes([33]) + pk + b'\xac'), CScript(b'\x51' + bytes([33]) + pk + b'\x51\xae')):
+            ssig = CScript(bytes([len(sig)]) + sig) if spk[-1] == 0xac else CScript(b'\x00' + bytes([len(sig)]) + sig)
+            try:
+                VerifyScript(ssig, spk, tx, nin - 1, ())
+            except ValidationError:
+                pass
+            except Exception as e:
+                raise unexpected('verify-user-subclass', e, 'transaction of a user subclass with %d inputs, after %r' % (nin, case['nins']))
+            n += 1
+    return {'nt': True, 'evals': n, 'cls': ['user-subclass']}
+
+
 def check_case(case):
     if case.get('soak'):
         return check_soak(case)
+    if case.get('nins'):
+        return check_usertx(case)
     flags = [f for i, f in enumerate(FLAGS) if case['fb'] >> i & 1]
     if 'CLEANSTACK' in flags and 'P2SH' not in flags:
         flags.append('P2SH')
@@ -116,7 +139,10 @@ def check_case(case):
         if case['mode'] == 3:
             init = [ssig_b[:3], spk_b[:2], b'z' * 600]
             st_ = list(init)
-            EvalScript(st_, spk, tx, idx, fl)
+            if flags:
+                EvalScript(st_, spk, tx, idx, fl)
+            else:
+                EvalScript(st_, spk, tx, idx)          # the flags argument left out altogether (it is optional)
         else:
             VerifyScript(ssig, spk, tx, idx, fl)
         outcome = 'returned'
@@ -215,6 +241,10 @@ def t_limits(ctx):
     failing opcode: elements of 519..522 and 600 bytes via direct-length-impossible / PUSHDATA1 (<=255) / PUSHDATA2 / PUSHDATA4;
     999..1001 stack items then an error; 200..202 counted operations then an error (deterministic, all tiers)"""
     fails = ['6a', 'ff', '8b', '75757575', '6b6b6b6b6c', 'ba']          # RETURN, invalid, 1ADD on a long element, underflow, alt, undefined
+    if ctx.shard == 0:
+        for nins in ([1, 2, 3], [3, 1, 2], [1, 1, 3, 2]):
+            ctx.run({'nins': nins})
+        ctx.exhaustive.append('transactions of a user subclass with content-free == / hash(), 1..3 inputs in three orders, CHECKSIG and CHECKMULTISIG at the last input')
     k = 0
     for n in (75, 76, 255, 256, 519, 520, 521, 522, 600, 4000):
         data = bytes((n + i) % 251 for i in range(n))
